@@ -153,7 +153,7 @@ Qed.
 
 (* the regenerated tables stay folded: nothing below depends on what they contain *)
 Local Opaque tcp_disconnect_hook tcp_suppress tcp_init_stack tcp_init_reraises misc_disconnect_after_connection receiver_next_protected tcp_wait_clauses udp_wait_clauses
-             listener_connect tls_wrap udp_aexit stream_close_pushed_first udp_done_in_finally udp_done_marks_first.
+             listener_connect tls_wrap adapter_close udp_aexit stream_close_pushed_first udp_done_in_finally udp_done_marks_first.
 
 (* ---- TCP client task ---- *)
 Lemma tcp_client_task_main_sim tls p e1 e1' e2 e2' :
@@ -379,4 +379,15 @@ Proof.
   - destruct (pushed_before SSuppress SLinger (tcp_init_stack FPlain)); simpl in *; [apply (osim_none_iff _ _ F1); auto | discriminate].
   - destruct (pushed_before SSuppress SOnDisconnect (tcp_init_stack FTlsCompat)); simpl in *; [apply (osim_none_iff _ _ F1); auto | discriminate].
   - destruct (pushed_before SSuppress SOnDisconnect (tcp_init_stack FPlain)); simpl in *; [apply (osim_none_iff _ _ F1); auto | discriminate].
+Qed.
+
+Theorem final_close_contained_general :
+  forall f e1 k, exc_is_exception e1 = true -> isinst k C_OSError = true ->
+    o_raises (tcp_final_close_fault f e1 k) = None /\ o_closed (tcp_final_close_fault f e1 k) = true.
+Proof.
+  intros f e1 k X K.
+  pose proof (tcp_never_raises_general f PHandleAfter e1 None X eq_refl) as A.
+  pose proof (tcp_closed_always f PHandleAfter e1 None) as B.
+  unfold tcp_final_close_fault. cbn [o_raises o_closed].
+  rewrite (final_close_swallowed k K). split; assumption.
 Qed.
